@@ -647,7 +647,7 @@ def run_fuzz(ctx, runs_per_job, jobs):
                 fh.write('"%s"\n' % t.decode())
     env = {"VF_FUZZ_VIOL": os.path.join(d, "viol")}
     workers = min(jobs, vf.NCPU)
-    args = [f"-runs={runs_per_job}", f"-jobs={jobs}", f"-workers={workers}", "-max_len=4096", f"-seed={ctx.seed}",
+    args = [f"-runs={runs_per_job}", f"-jobs={jobs}", f"-workers={workers}", "-max_len=1024", f"-seed={ctx.seed}",
             f"-artifact_prefix={d}/artifact-", "-print_final_stats=1", "-timeout=25", "-rss_limit_mb=2048", f"-dict={d}/xml.dict", corpus]
     rr = vf.run_harness(fb, args, timeout=3000, env_extra=env, cwd=d, parse_stdout=False)
     ctx.flavors.add("fuzz")
@@ -706,7 +706,7 @@ def run(ctx):
     summaries = SH.run_pool(jobs)
     SH.merge(ctx, summaries)
     if thorough:
-        run_fuzz(ctx, 500000, 16)
+        run_fuzz(ctx, 150000, 16)        # bounded by executions (-runs), not by time
     ctx.rule = ("documents = random trees (ASCII QNames with prefixes/xmlns, attributes in both quote styles with whitespace around '=', text with "
                 "entity and decimal/hex character references incl. astral code points and referenced whitespace, CDATA, comments, PIs, XML declaration, "
                 "DOCTYPE with SYSTEM/PUBLIC ids and internal subset, misc outside the root, formatting whitespace) checked against the generating tree and expat; "
